@@ -21,37 +21,41 @@ Proof. apply (list_eqb_spec String.eqb); [intros; apply String.eqb_eq|reflexivit
 Lemma trec_eqb_refl t : trec_eqb t t = true.
 Proof. unfold trec_eqb. now rewrite !String.eqb_refl, !strs_eqb_refl, Bool.eqb_reflx. Qed.
 
-(* who the model authenticates is who the credentials name, authenticated as registered *)
+Lemma leg_secret_auth_sec cl i s k : leg_secret_auth cl i s = Some k -> c_auth k <> AMNone ->
+  String.eqb (c_secret k) s = true.
+Proof.
+  unfold leg_secret_auth. destruct (nonempty i); [|discriminate].
+  destruct (find_client cl i) as [k'|] eqn:F; [|discriminate].
+  destruct (c_auth k') eqn:A; try discriminate; try (intros [= <-] N; congruence);
+    (destruct (sec_ok cl i s) eqn:S; [|discriminate]); intros [= <-] _;
+    apply sec_ok_found in S as (k2 & F2 & S); rewrite F in F2; injection F2 as <-; now apply String.eqb_eq.
+Qed.
+
+(* who the model authenticates is who the credential names, and the credential was verified *)
 Lemma exch_auth_ok cl r c k : wf_clients cl = true -> exch_auth cl r c = Some k ->
   C15_spec.client_ok cl c = true /\ c_id k = cred_id c /\ find_client cl (cred_id c) = Some k.
 Proof.
-  intros W. unfold exch_auth, C15_spec.client_ok, cred_id. destruct r.
-  - unfold auth_exch_prov. destruct c as [|i s|i s]; cbn.
-    + unfold sec_ok. now rewrite (wf_no_empty_id _ W).
-    + destruct (sec_ok cl i s) eqn:S; [|discriminate]. intro F. rewrite F.
+  intros W. unfold exch_auth. destruct r.
+  - unfold auth_exch_prov, C15_spec.client_ok, cred_id.
+    assert (B : forall i s, (if sec_ok cl i s then find_client cl i else None) = Some k ->
+              match find_client cl i with Some k0 => String.eqb (c_secret k0) s | None => false end = true /\
+              c_id k = i /\ find_client cl i = Some k).
+    { intros i s. destruct (sec_ok cl i s) eqn:S; [|discriminate]. intro F. rewrite F.
       apply sec_ok_found in S as (k' & F' & S). rewrite F in F'. injection F' as <-.
-      split; [|split; [now apply find_client_id in F|reflexivity]].
-      destruct (c_auth k); try reflexivity; now apply String.eqb_eq.
-    + unfold sec_ok. now rewrite (wf_no_empty_id _ W).
-  - unfold verify_client_leg. destruct c as [|i s|i s]; cbn; try discriminate.
-    + destruct (nonempty i); [|discriminate]. destruct (find_client cl i) as [k'|] eqn:F; [|discriminate].
-      destruct (c_auth k') eqn:A.
-      * destruct (sec_ok cl i s) eqn:S; [|discriminate]. intros [= <-].
-        apply sec_ok_found in S as (k2 & F2 & S). rewrite F in F2. injection F2 as <-.
-        split; [now apply String.eqb_eq|split; [now apply find_client_id in F|reflexivity]].
-      * destruct (sec_ok cl i s) eqn:S; [|discriminate]. intros [= <-].
-        apply sec_ok_found in S as (k2 & F2 & S). rewrite F in F2. injection F2 as <-.
-        split; [now apply String.eqb_eq|split; [now apply find_client_id in F|reflexivity]].
-      * intros [= <-]. split; [reflexivity|split; [now apply find_client_id in F|reflexivity]].
-    + destruct (nonempty i); [|discriminate]. destruct (find_client cl i) as [k'|] eqn:F; [|discriminate].
-      destruct (c_auth k') eqn:A.
-      * destruct (sec_ok cl i s) eqn:S; [|discriminate]. intros [= <-].
-        apply sec_ok_found in S as (k2 & F2 & S). rewrite F in F2. injection F2 as <-.
-        split; [now apply String.eqb_eq|split; [now apply find_client_id in F|reflexivity]].
-      * destruct (sec_ok cl i s) eqn:S; [|discriminate]. intros [= <-].
-        apply sec_ok_found in S as (k2 & F2 & S). rewrite F in F2. injection F2 as <-.
-        split; [now apply String.eqb_eq|split; [now apply find_client_id in F|reflexivity]].
-      * intros [= <-]. split; [reflexivity|split; [now apply find_client_id in F|reflexivity]].
+      split; [now apply String.eqb_eq|]. split; [now apply find_client_id in F|reflexivity]. }
+    destruct c as [|i s|i s|i s f|[x|] f]; cbn [basic_pair cred_pair fst]; try apply B;
+      unfold sec_ok; now rewrite (wf_no_empty_id _ W).
+  - unfold auth_exch_leg. destruct (verify_client_leg cl c) as [k'|] eqn:V; [|discriminate].
+    intro H. assert (K : k' = k /\ c_auth k <> AMNone).
+    { destruct (c_auth k') eqn:A; try discriminate; injection H as <-; split; congruence. }
+    destruct K as [-> NN]. clear H.
+    destruct (verify_client_leg_id _ _ _ V) as [I F]. split; [|split; assumption].
+    unfold C15_spec.client_ok. unfold cred_id in F. unfold verify_client_leg in V.
+    destruct c as [|i s|i s|i s f|[x|] f]; cbn [cred_pair fst] in *; try discriminate.
+    + rewrite F. exact (leg_secret_auth_sec _ _ _ _ V NN).
+    + rewrite F. exact (leg_secret_auth_sec _ _ _ _ V NN).
+    + rewrite F. exact (leg_secret_auth_sec _ _ _ _ V NN).
+    + rewrite F in *. now destruct (c_auth k).
 Qed.
 
 Lemma read_x_subject g typ t id sub : read_x g typ t = Some (id, sub) -> C15_spec.subject_of g typ t = sub.
@@ -82,7 +86,7 @@ Definition success_result (g : store) (nx : nat) (k : client) (ssub asub : strin
   match req with
   | TAccess | TAbsent => Some ((add_at (nx + 1) t g, nx + 1), OExch TAccess (acc (nx + 1)) NoId false sc (Some t))
   | TRefresh => Some ((add_at_rt (nx + 1) (nx + 2) t g, nx + 2), OExch TRefresh (acc (nx + 2)) (RT (nx + 1)) true sc (Some t))
-  | TId => Some ((g, nx), OExch TId (XIdTok (if string_in "openid" sc then ssub else "") (c_id k)) NoId false sc None)
+  | TId => Some ((g, nx), OExch TId (XIdTok ssub (c_id k)) NoId false sc None)
   | _ => None
   end.
 
@@ -95,7 +99,8 @@ Lemma exchange_ok_full cl r g nx c subj styp actor req scopes aud s' i x rt lv s
 Proof.
   unfold exchange.
   destruct (match r, styp with Prov, TAbsent => true | _, _ => false end); [discriminate|].
-  fold (exch_auth cl r c). destruct (exch_auth cl r c) as [k|]; [|destruct r; discriminate].
+  fold (exch_auth cl r c) (exch_err cl r c). destruct (exch_auth cl r c) as [k|];
+    [|destruct (exch_err_shape cl r c) as [st ->]; discriminate].
   destruct (read_x g styp subj) as [[id ssub]|] eqn:RS; [|destruct req; discriminate].
   fold (actor_read g actor).
   destruct (actor_read g actor) as [[[aid asub] atyp']|] eqn:EA; [|destruct req; discriminate].
@@ -123,9 +128,9 @@ Lemma contained_refresh t n m (j : bool) :
   C15_spec.contained t TRefresh (if j then XJwt (AT n) (tr_sub t) else XOpaque (AT n) (tr_sub t)) (RT m) true (Some t) = true.
 Proof. unfold C15_spec.contained. destruct j; now rewrite String.eqb_refl, trec_eqb_refl. Qed.
 
-Lemma contained_id t (b : bool) rt lv sto :
-  C15_spec.contained t TId (XIdTok (if b then tr_sub t else "") (tr_client t)) rt lv sto = true.
-Proof. unfold C15_spec.contained. destruct b; now rewrite !String.eqb_refl, ?orb_true_r. Qed.
+Lemma contained_id t rt lv sto :
+  C15_spec.contained t TId (XIdTok (tr_sub t) (tr_client t)) rt lv sto = true.
+Proof. unfold C15_spec.contained. now rewrite !String.eqb_refl. Qed.
 
 (* C15_declared_is_contained, request level *)
 Lemma declared_is_contained cl r g nx c subj styp actor req scopes aud s' i x rt lv sc sto :
@@ -213,7 +218,7 @@ Lemma exchange_shape cl r s c subj styp actor req scopes aud :
   (exists i a rt lv sc sto, x = OExch i a rt lv sc sto) \/ (exists st, x = OErr st true /\ C15_spec.is_error st = true).
 Proof.
   cbn zeta. destruct (exchange cl r s c subj styp actor req scopes aud) as [s' x] eqn:E. cbn [snd].
-  unfold exchange in E. leaves E; injection E as _ <-;
+  unfold exchange, client_err_leg in E. leaves E; injection E as _ <-;
     try (left; repeat eexists; fail); right; eexists; split; reflexivity.
 Qed.
 
